@@ -780,6 +780,10 @@ func (node *Show) Format(buf *TrackedBuffer) {
 }
 
 func (node *Show) walkSubtree(visit Visit) error {
+	// the LIKE pattern / WHERE condition of SHOW TABLES holds literals
+	if node.ShowTablesOpt != nil && node.ShowTablesOpt.Filter != nil {
+		return Walk(visit, node.ShowTablesOpt.Filter)
+	}
 	return nil
 }
 
@@ -793,7 +797,10 @@ func (node *ShowFilter) Format(buf *TrackedBuffer) {
 }
 
 func (node *ShowFilter) walkSubtree(visit Visit) error {
-	return nil
+	if node == nil || node.Filter == nil {
+		return nil
+	}
+	return Walk(visit, node.Filter)
 }
 
 // Format formats the node.
